@@ -18,6 +18,8 @@ class Responder:
     def __init__(self, net, addr, ident, name, script, r):
         self.net, self.addr, self.ident, self.name, self.script, self.r = net, addr, ident, name, script, r
         self.heard = 0
+        # the reply's source port need not be the port the hello was sent to (NAT, port forwarding)
+        self.reply_addr = (addr[0], r.randrange(30000, 60000)) if r.random() < 0.25 else addr
         net.add_peer(addr, self)
 
     def receive(self, data, src):
@@ -29,7 +31,7 @@ class Responder:
             return
         reply = b"<HELLO>" + self.ident + b"|" + self.name.encode("latin1") + b"</HELLO>"
         for _ in range(s["copies"]):
-            self.net.peer_send(self.addr, reply, src)
+            self.net.peer_send(self.reply_addr, reply, src)
 
 
 def gen_name(r):
@@ -58,9 +60,13 @@ def scenario(sh: Shard, seed, idx, regime):
             ident = b"SPA" + ":".join("%02x" % r.randrange(256) for _ in range(6)).encode()
             if resp and r.random() < 0.15:
                 ident = resp[0].ident  # two boxes answering with the same identifier
+            elif resp and r.random() < 0.15 and resp[0].ident.swapcase() != resp[0].ident:
+                ident = b"SPA" + resp[0].ident[3:].swapcase()  # differs from the first one by letter case only
+                sh.count("identifiers_differing_by_case_only")
             script = {"answer_from": r.choice([1, 1, 2, 4, 9, 12]), "loss": r.choice([0, 0, 0.5]), "copies": r.choice([1, 1, 2, 5]), "latency": r.choice([(0.0005, 0.003), (0.05, 0.4), (0.5, 3.0), (8.0, 14.0)])}
             resp.append(Responder(w.net, (f"10.0.0.{10 + i}", 10022), ident, gen_name(r), script, r))
         by_addr = {x.addr: x for x in resp}
+        by_addr.update({x.reply_addr: x for x in resp})
 
         def fault(d):
             if d.dir == "s2c":
@@ -77,6 +83,11 @@ def scenario(sh: Shard, seed, idx, regime):
             kw["spa_identifier"] = "SPAno:su:ch:sp:a0:00"
         if mode in ("addr", "addr+id") and target:
             kw["spa_address"] = target.addr[0]
+            if r.random() < 0.3:
+                # the address as a host name (anything sendto() accepts): replies still come from the IP
+                w.net.aliases = {"spa-%d.local" % idx: target.addr[0]}
+                kw["spa_address"] = "spa-%d.local" % idx
+                sh.count("address_filters_given_as_a_host_name")
         if mode == "addr" and not target:
             kw["spa_address"] = "10.0.0.99"
         events = []
@@ -223,10 +234,12 @@ def scenario(sh: Shard, seed, idx, regime):
             sh.violation("C15:wrong-set", f"listed {sorted(set(listed))}, replies processed in time require {sorted(must)} and allow {sorted(may)}", wit)
         for s in out["spas"]:
             cands = [x for x in resp if x.ident == s.identifier]
-            if not any(x.name == s.name and x.addr == (s.ipaddress, s.port) for x in cands) or not isinstance(s.identifier, bytes):
+            if not any(x.name == s.name and x.reply_addr == (s.ipaddress, s.port) for x in cands) or not isinstance(s.identifier, bytes):
                 sh.violation("C15:descriptor-not-intact", f"descriptor ({s.identifier!r}, {s.name!r}, {s.ipaddress}:{s.port}) matches no responder", wit)
             else:
                 sh.count("descriptors_intact")
+                if s.port != 10022:
+                    sh.count("descriptors_with_another_source_port")
                 if "|" in s.name:
                     sh.count("names_with_separator_listed")
                 if any(ord(c) > 127 for c in s.name):
